@@ -115,6 +115,10 @@ class SimSocket:
         except OSError:
             pass
 
+    def dup(self):
+        ofd = self._ofd()
+        return SimSocket(self.family, self.type, self.proto, _ofd=ofd)
+
     def detach(self):
         self._closed = True
         return self._fd
